@@ -357,6 +357,11 @@ def gen(rng, n, mode):
                    "vf": rng.choice([None, None, {"n": 1, "info": True}, {"n": 2, "info": True}, {"n": 1, "info": False}]), "instances": rng.random() < 0.4,
                    "exOn": rng.choice(["all", "all", "first", "last"])}
             kw = _kw(rng, fn, names, [], mode, fd)
+            if ex["skipLib"] is not None and rng.random() < 0.5:
+                # masters whose own skip lists differ: every later master lists one more name than the one before it
+                dsc["skipVary"] = True
+                dsc["exOn"] = "all"
+                kw.pop("skipExportGlyphs", None)
             if rng.random() < 0.08:
                 ex["libfilters"].insert(0, {"name": "propagateAnchors", "pre": True})
                 dsc["exOn"] = "all"
@@ -521,6 +526,10 @@ def _sources(case):
         on = dsc["exOn"]
         if on == "all" or (on == "first" and k == 0) or (on == "last" and k == nm - 1):
             _apply_extras(f, ex)
+        if dsc.get("skipVary") and k > 0 and "public.skipExportGlyphs" in f.lib:
+            have = list(f.lib["public.skipExportGlyphs"])
+            more = [g.name for g in f.layers.defaultLayer if g.name not in have and g.name != ".notdef"][:k]
+            f.lib["public.skipExportGlyphs"] = have + more
         fonts.append(f)
     locs = [0, 1000] if nm == 2 else [0, 1000, 500]
     srcs = [(k, None) for k in range(nm)]
